@@ -154,6 +154,13 @@ def fam_split(ctx, rng):
         desc = {'polyline': c.to_dict(), 'plane': pl.to_dict()}
         ctx.count('split.pline3', key=len(parts), sample=desc)
         check_pieces(ctx, 'split:pline3', parts, c, desc, pl)
+        # one piece more than there are proper crossings (exact side test of the vertices; skipped when a vertex is near the plane)
+        fn, fo = X.fpt(pl.n), X.fpt(pl.o)
+        sd = [X.dot(fn, X.sub(X.fpt(v), fo)) for v in c.vertices]
+        if all(abs(float(t)) > 1e-6 * 30 for t in sd):
+            crossings = sum(1 for a_, b_ in zip(sd, sd[1:]) if (a_ > 0) != (b_ > 0))
+            if len(parts) != crossings + 1:
+                ctx.violation('split:pline3:count', 'the plane crosses the polyline %d times but %d pieces were returned' % (crossings, len(parts)), desc)
     elif which == 'arc3':
         c = Bd.make(rng, 'Arc3D')
         if rng.random() < 0.5:
@@ -176,6 +183,15 @@ def fam_split(ctx, rng):
         inv = 'inverted' if c.a2 < c.a1 else ('circle' if c.is_circle else 'plain')
         ctx.count('split.arc3', key=(inv, len(parts)), sample=desc)
         check_arc_pieces(ctx, 'split:arc3:' + inv, parts, c, desc)
+        # the pieces meet on the cutting plane, and every crossing found by intersect_plane is a joint
+        sc3 = max(1.0, c.radius)
+        for a_, b_ in zip(parts, parts[1:]):
+            if abs(pl.n.dot(a_.p2 - pl.o)) > 1e-7 * sc3 * 50:
+                ctx.violation('split:arc3:%s:cut_off_plane' % inv, 'arc pieces meet at %r, which is %r off the cutting plane' % (
+                    a_.p2, abs(pl.n.dot(a_.p2 - pl.o))), desc); break
+        hits = c.intersect_plane(pl) or []
+        if not c.is_circle and len(parts) != len(hits) + 1 and len(hits) in (1, 2):
+            ctx.violation('split:arc3:%s:count' % inv, 'intersect_plane finds %d crossings but split_with_plane returns %d pieces' % (len(hits), len(parts)), desc)
     else:
         c = Bd.make(rng, 'Arc2D')
         tgt = c.point_at(rng.uniform(0.1, 0.9))
